@@ -337,6 +337,9 @@ func c16Check(c *Ctx, f *c16File) {
 			c.Violate("image-decodeconfig-dispatch", "image.DecodeConfig differs from webp.DecodeConfig: "+o.ImgCfg, replay)
 		}
 	}
+	if f.Kind == "edge-anim-canvas-area-2^30" {
+		c.Count(fmt.Sprintf("note:canvas-area>=2^30 GetFeatures=%v demuxer=%v (cap only in container.Parser)", o.Feat != "E", o.Dmx != "E"))
+	}
 	// (b) well-formed files: the container-level views agree
 	if f.WF && o.Feat != "E" {
 		c.Count("clause-b:evaluated")
@@ -578,6 +581,9 @@ func edgeFiles(p *c16Parts, thorough bool) []c16File {
 	animHead := append(chunkBytes("VP8X", vp8xPayload(2, p.W, p.H)), anim...)
 	add("anmf-area-too-large", riffFile(append(append([]byte(nil), animHead...), chunkBytes("ANMF", anmfPayload(0, 0, 32768, 32768, 10, 0, chunkBytes("VP8 ", p.VP8)))...)))
 	add("anmf-max-offsets", riffFile(append(append([]byte(nil), animHead...), chunkBytes("ANMF", anmfPayload(2*0xffffff, 2*0xffffff, p.W, p.H, 0xffffff, 3, chunkBytes("VP8 ", p.VP8)))...)))
+	// a well-formed animation whose canvas area is >= 2^30: container.Parser rejects it (MaxImageArea), the
+	// demuxer has no such cap; outside the hypotheses of C16_views_agree_anim and counted, not reported
+	add("anim-canvas-area-2^30", riffFile(append(append(chunkBytes("VP8X", vp8xPayload(2, 32768, 32768)), anim...), frame...)))
 	add("anim-flag-clear-with-anim-chunks", riffFile(append(append(chunkBytes("VP8X", vp8xPayload(0, p.W, p.H)), anim...), frame...)))
 	add("anim-flag-clear-anim-then-image", riffFile(append(append(chunkBytes("VP8X", vp8xPayload(0, p.W, p.H)), anim...), vp8...)))
 	if thorough {
